@@ -277,6 +277,10 @@ def handle (j : Json) : Json :=
     | .ok cs => Json.mkObj [("ok", Json.arr (cs.map charsJ).toArray)]
     | .error b => Json.mkObj [("err", "not closed token: " ++ Val.quoteStr (String.ofList b))]
   | "quote" => Json.mkObj [("ok", Val.quoteStr (jstr j "s"))]
+  | "unquote" =>
+    match GoQuote.unquote (jstr j "s").toList with
+    | some v => Json.mkObj [("ok", String.ofList v)]
+    | none => Json.mkObj [("err", "invalid")]
   | "export" => Json.mkObj [("ok", (valOfJson ((j.getObjVal? "v").toOption.getD Json.null)).goExport)]
   | "cast" => Json.mkObj [("ok", (valOfJson ((j.getObjVal? "v").toOption.getD Json.null)).castToString)]
   | "mapkeys" =>
